@@ -407,7 +407,9 @@ func factKey(f core.Fact) string {
 	}
 	if bin, ok := f.Cond.(*ssa.BinOp); ok {
 		px, py := f.Path(bin.X), f.Path(bin.Y)
-		okp := func(p string) bool { return strings.HasPrefix(p, "data.") || strings.HasPrefix(p, "tx.") || strings.HasPrefix(p, "const:") }
+		okp := func(p string) bool {
+			return strings.HasPrefix(p, "data.") || strings.HasPrefix(p, "tx.") || strings.HasPrefix(p, "const:")
+		}
 		if okp(px) && okp(py) {
 			return px + " " + bin.Op.String() + " " + py
 		}
